@@ -406,11 +406,14 @@ func (C19) Run(t *testing.T, plan *kernel.Plan, keepLog bool) *kernel.Result {
 						w.Violate("C19", "policy-default-gives-default", psite, fmt.Sprintf("reader got %.40q (decoded %q, err %q/%v), want default %q", cell, got, res.Err, derr, defText))
 					}
 				default: // ciphertext (also the default policy)
-					raw := cell
-					if format == 0 {
-						raw = decodeClientCell(17, 0, cell)
+					// the stored bytes, as they are or in the bytea text spelling
+					same := bytes.Equal(cell, stored)
+					if !same && format == 0 {
+						if dec, derr := decodeBytea(cell); derr == nil && bytes.Equal(dec, stored) {
+							same = true
+						}
 					}
-					if res.Err != "" || !bytes.Equal(raw, stored) {
+					if res.Err != "" || !same {
 						w.Violate("C19", "policy-ciphertext-gives-stored-bytes", psite, fmt.Sprintf("reader got %.40q (err %q), stored cell is %.24x..", cell, res.Err, stored))
 					}
 				}
